@@ -1747,3 +1747,38 @@ def lookup(dfn, res, callee):   # noqa: F811
     if res in RES_TABLE:
         return RES_TABLE[res]
     return _old_lookup(dfn, res, callee)
+
+
+# ---- operator traits on primitive integers reached as calls (an operand is a reference, so rustc does not emit the built-in
+# operation with its own overflow assertion: `0xEF - self.register.get(..)` is `<u8 as Sub<&u8>>::sub`, a libcore routine that
+# inherits the crate's overflow checks).  Modelled as the checked operation; a possible overflow is a panic event at the call.
+import re as _re
+_ARITH_RES = _re.compile(r"^<&?(?:'\w+ )?(u8|u16|u32|u64|u128|usize|i8|i16|i32|i64|i128|isize) as core::ops::(?:arith|bit)::"
+                         r"(Add|Sub|Mul|Shl|Shr)<&?(?:'\w+ )?(?:u8|u16|u32|u64|u128|usize|i8|i16|i32|i64|i128|isize)>>::(add|sub|mul|shl|shr)$")
+
+
+def _arith_call(ty, op):
+    def m(I, st, depth, callee, args, body, ln):
+        a = deref(I, st, args[0]) if isinstance(args[0], Ref) else args[0]
+        b = deref(I, st, args[1]) if isinstance(args[1], Ref) else args[1]
+        r = D.binop(op + "WithOverflow", a, b, ty)
+        may = True
+        val = D.top_of_int(ty)
+        if isinstance(r, Agg) and len(r.f) == 2:
+            val, flag = r.f
+            may = flag != 0 and flag != frozenset((0,))
+        if may:
+            I.ev("panic", body, ln, {"kind": "arith-call", "callee": callee.get("res") or callee.get("def"),
+                                     "msg": "attempt to %s with overflow" % op.lower(), "may": True})
+        return val
+    return m
+
+
+_prev_lookup = lookup
+
+
+def lookup(dfn, res, callee):   # noqa: F811
+    mt_ = _ARITH_RES.match(res or "")
+    if mt_:
+        return _arith_call(mt_.group(1), mt_.group(2))
+    return _prev_lookup(dfn, res, callee)
